@@ -88,7 +88,8 @@ SPECS = {
 
 
 # change of the stored length by a successful call, in units of the length parameter
-LEN_EFFECT = {"mpt_qpop": -1, "mpt_qshift": -1, "mpt_qpush": 1, "mpt_qunshift": 1, "mpt_queue_get": 0, "mpt_queue_crop": -1}
+LEN_EFFECT = {"mpt_qpop": ("queue", "len", -1), "mpt_qshift": ("queue", "len", -1), "mpt_qpush": ("queue", "len", 1), "mpt_qunshift": ("queue", "len", 1),
+              "mpt_queue_get": ("queue", "len", 0), "mpt_queue_crop": ("queue", "len", -1), "mpt_qpre": ("queue", "len", 1), "mpt_qpost": ("queue", "len", 1)}
 
 
 def content_hook(f, fr0, spec, entry):
@@ -264,28 +265,30 @@ def run_linbounds(prog, ctx=None):
                     okc = False
                     detc = "%r bytes transferred, %r requested, on path %s" % (got, want, " / ".join(st.trail[-8:]))
             agg["LIN:%s:COVER" % f.name] = [okc, f, f.line, detc, True]
-            # LENSPEC: a successful call changes the stored length by exactly what it took or added
-            eff = LEN_EFFECT.get(f.name)
-            if eff is not None:
-                okl, detl, nl = True, "", 0
-                l0 = entry.env.get(("f", "P." + spec[1], "len"))
-                n0 = entry.env.get(("v", fr.id, pid[spec[3]]))
-                for st, v in outs:
-                    if isinstance(v, Lin) and st.entails(-v - Lin.const(1)):
-                        continue
-                    if isinstance(v, Ptr) and v.region is None and f.T(f.ret).get("k") == "ptr":
-                        continue
-                    if isinstance(v, Ptr) and v.maybe_null:
-                        continue
-                    l1 = st.env.get(("f", "P." + spec[1], "len"))
-                    if not (isinstance(l0, Lin) and isinstance(n0, Lin) and isinstance(l1, Lin)) or st.joined:
-                        continue
-                    nl += 1
-                    if not st.entails_eq(l1, l0 + n0.scale(eff)):
-                        okl = False
-                        detl = "the call succeeds with len = %r; a call that %s %r bytes leaves %r; path %s" % (l1, "removes" if eff < 0 else ("adds" if eff > 0 else "only reads"), n0, l0 + n0.scale(eff), " / ".join(st.trail[-8:]))
-                if nl:
-                    agg["LIN:%s:LENSPEC" % f.name] = [okl, f, f.line, detl, True]
+        # LENSPEC: a successful call changes the stored length by exactly what it took or added
+        eff = LEN_EFFECT.get(f.name)
+        if eff is not None:
+            qn_, ln_, mult = eff
+            pid2 = {p["n"]: p["id"] for p in f.params}
+            okl, detl, nl = True, "", 0
+            l0 = entry.env.get(("f", "P." + qn_, "len"))
+            n0 = entry.env.get(("v", fr.id, pid2.get(ln_)))
+            for st, v in outs:
+                if isinstance(v, Lin) and st.entails(-v - Lin.const(1)):
+                    continue
+                if isinstance(v, Ptr) and v.region is None and f.T(f.ret).get("k") == "ptr":
+                    continue
+                if isinstance(v, Ptr) and v.maybe_null:
+                    continue
+                l1 = st.env.get(("f", "P." + qn_, "len"))
+                if not (isinstance(l0, Lin) and isinstance(n0, Lin) and isinstance(l1, Lin)) or st.joined:
+                    continue
+                nl += 1
+                if not st.entails_eq(l1, l0 + n0.scale(mult)):
+                    okl = False
+                    detl = "the call succeeds with len = %r; a call that %s %r bytes leaves %r; path %s" % (l1, "removes" if mult < 0 else ("adds" if mult > 0 else "only reads"), n0, l0 + n0.scale(mult), " / ".join(st.trail[-8:]))
+            if nl:
+                agg["LIN:%s:LENSPEC" % f.name] = [okl, f, f.line, detl, True]
         for k in ("states", "paths", "inlined"):
             stats[k] += an.stats.get(k, 0)
         for o in an.obls:
